@@ -3038,7 +3038,7 @@ static void handle_define (char *yyt) {
           *q = *p;
           if (*p++ == MARKS)
             *++q = MARKS;
-          if (q < mtext + MLEN - 2)
+          if (q < mtext + MLEN - 3)	/* a one-letter parameter grows by one byte when it is replaced */
             q++;
           else
             {
